@@ -65,6 +65,8 @@ struct Out {
     stdout: Vec<u8>,
     stderr: Vec<u8>,
     timed_out: bool,
+    /// on a timeout: Some(system call numbers) if the process was positively seen blocked
+    blocked_in: Option<String>,
     /// did `stamp` exist when delta exited? (the pager inherits delta's stdout, so waiting for
     /// end-of-file there would also wait for the pager)
     stamp_at_exit: bool,
@@ -118,6 +120,7 @@ fn run(w: &World, r: &Run) -> std::io::Result<Out> {
     });
     let t0 = Instant::now();
     let mut timed_out = false;
+    let mut blocked_in: Option<String> = None;
     let mut stamp_at_exit = false;
     let status = loop {
         if let Some(st) = child.try_wait()? {
@@ -126,6 +129,9 @@ fn run(w: &World, r: &Run) -> std::io::Result<Out> {
         }
         if t0.elapsed() > Duration::from_secs(20) {
             timed_out = true;
+            // slow, or blocked for good?  Observed, not guessed: no CPU time used over a further
+            // 1.5 s while every thread sleeps in a system call (wait4, read, futex, ...)
+            blocked_in = blocked_forever(child.id());
             let _ = child.kill();
             break child.wait()?;
         }
@@ -136,7 +142,35 @@ fn run(w: &World, r: &Run) -> std::io::Result<Out> {
     }
     let stdout = t_out.join().unwrap_or_default();
     let stderr = t_err.join().unwrap_or_default();
-    Ok(Out { status: status.code(), signal: std::os::unix::process::ExitStatusExt::signal(&status), stdout, stderr, timed_out, stamp_at_exit })
+    Ok(Out { status: status.code(), signal: std::os::unix::process::ExitStatusExt::signal(&status), stdout, stderr, timed_out, blocked_in, stamp_at_exit })
+}
+
+/// CPU ticks (utime + stime) of a process and the state/system call of each of its threads
+fn proc_snapshot(pid: u32) -> Option<(u64, Vec<(char, String)>)> {
+    let stat = std::fs::read_to_string(format!("/proc/{}/stat", pid)).ok()?;
+    let rest = &stat[stat.rfind(')')? + 2..];
+    let f: Vec<&str> = rest.split(' ').collect();
+    let ticks = f.get(11)?.parse::<u64>().ok()? + f.get(12)?.parse::<u64>().ok()?;
+    let mut threads = Vec::new();
+    for e in std::fs::read_dir(format!("/proc/{}/task", pid)).ok()?.flatten() {
+        let st = std::fs::read_to_string(e.path().join("stat")).unwrap_or_default();
+        let state = st.rfind(')').and_then(|i| st[i + 2..].chars().next()).unwrap_or('?');
+        let sc = std::fs::read_to_string(e.path().join("syscall")).unwrap_or_default();
+        threads.push((state, sc.split(' ').next().unwrap_or("").trim().to_string()));
+    }
+    Some((ticks, threads))
+}
+
+fn blocked_forever(pid: u32) -> Option<String> {
+    let (t1, th1) = proc_snapshot(pid)?;
+    std::thread::sleep(Duration::from_millis(1500));
+    let (t2, th2) = proc_snapshot(pid)?;
+    let sleeping = |th: &Vec<(char, String)>| !th.is_empty() && th.iter().all(|(st, sc)| *st == 'S' && sc != "running" && !sc.is_empty());
+    if t1 == t2 && sleeping(&th1) && sleeping(&th2) && th1 == th2 {
+        Some(th2.iter().map(|(_, sc)| sc.clone()).collect::<Vec<_>>().join(","))
+    } else {
+        None
+    }
 }
 
 fn shim_env(w: &World, target: &str, at: usize, log: &Path) -> Vec<(String, String)> {
@@ -237,7 +271,13 @@ impl<'a> Sc<'a> {
         match run(self.w, r) {
             Ok(o) if o.timed_out => {
                 *self.ctx.notes.entry("c18_timeouts".to_string()).or_insert(0) += 1;
-                Err(Verdict::Skip("timeout"))
+                match &o.blocked_in {
+                    // "delta exits": a process that sleeps in a system call without using any
+                    // CPU time 20 s after it was started does not
+                    Some(sc) => Err(self.fail(&format!("does-not-terminate:blocked-in-syscall-{}", sc.split(',').next().unwrap_or("")), format!("delta is still running after 20 s and blocked for good: no CPU time used over a further 1.5 s, every thread asleep in a system call (numbers: {}); argv {:?}", sc, r.args), json!({"syscalls": sc}))),
+                    // merely slow (loaded machine): inconclusive, never a violation
+                    None => Err(Verdict::Skip("timeout")),
+                }
             }
             Ok(o) => Ok(o),
             Err(e) => Err(Verdict::Fail(Failure::new("INFRASTRUCTURE:spawn", format!("cannot run the binary: {}", e)))),
@@ -561,6 +601,42 @@ fn s_files(t: &mut Tape, sc: &mut Sc) -> Verdict {
     let _ = std::fs::remove_file(&fb);
     if variant != 2 {
         std::fs::write(&fb, b_lines.join("\n") + "\n").expect("write b");
+    }
+    // `delta A B` with a pager: whatever happens - also when the differ cannot even be started
+    // because --diff-args does not parse - delta has to outlive the pager it spawned
+    if variant == 1 && t.chance(1, 3) {
+        args.retain(|a| a != "--paging=never");
+        args.push("--paging=always".to_string());
+        args.push("--pager=mypager".to_string());
+        let bad_args = t.coin();
+        if bad_args {
+            args.push(format!("--diff-args={}", t.ps(&["-U1 'x", "\"-U3", "-U2 \\"])));
+        } else if t.coin() {
+            args.push("--diff-args=-U1".to_string());
+        }
+        args.push("a.txt".to_string());
+        args.push("b.txt".to_string());
+        let (script, _stdin_file, stamp, record) = pager_script(sc.w, "mypager", json!({"delay_ms": 120}));
+        let r = Run { args: args.clone(), env: vec![("STUBTOOL_SCRIPT".to_string(), script.display().to_string())], stamp: Some(stamp.clone()), ..Default::default() };
+        sc.detail = json!({"run": args_json(&r), "unparsable_diff_args": bad_args, "a.txt": a_lines, "b.txt": b_lines});
+        let o = match sc.run(&r) {
+            Ok(o) => o,
+            Err(v) => return v,
+        };
+        let pager_started = record.exists();
+        if pager_started && !o.stamp_at_exit {
+            return sc.fail("two-files-pager:exited-before-pager", format!("`delta {}`: delta exited (status {:?}) while the pager it had started was still running (the pager exits 120 ms after end of input); stderr: {}", args.join(" "), o.status, String::from_utf8_lossy(&o.stderr).chars().take(200).collect::<String>()), json!(null));
+        }
+        if !bad_args {
+            if o.status != Some(1) {
+                return sc.fail("different-files-status", format!("two different files through a pager: exit {:?} (expected 1); stderr: {}", o.status, String::from_utf8_lossy(&o.stderr)), json!(null));
+            }
+            if !pager_started {
+                return sc.fail("pager-not-started", "--paging=always --pager=mypager: the pager was not started".to_string(), json!(null));
+            }
+        }
+        sc.ctx.class(if bad_args { "files:pager:unparsable-diff-args" } else { "files:pager" });
+        return Verdict::Pass;
     }
     args.push("a.txt".to_string());
     args.push("b.txt".to_string());
